@@ -32,7 +32,7 @@ SYMBOLS = {
     # distinct symbols with equal hashes (CPython: hash(-1) == hash(-2) == -2, hash(2**61-1) == hash(0) == 0)
     "hashcollide": [-1, -2, 2**61 - 1, 0],
 }
-ALPHABETS = [["a", "b"]] * 6 + [[0, 1], [5, 7], [0, []], ["a", ["t", 1]], [-1, -2]]
+ALPHABETS = [["a", "b"]] * 6 + [[0, 1], [5, 7], [0, []], ["a", ["t", 1]], [-1, -2], [1, 11], ["a", "aa"], ["1", 1]]  # the last three: different sequences print alike when joined
 
 
 def resymbol(g, mode):
